@@ -97,7 +97,9 @@ func (f *WithInputFromString) Call(s *slip.Scope, args slip.List, depth int) (re
 	s2.Let(sym, slip.NewInputStream(reader))
 	args = args[1:]
 	for i := range args {
-		result = slip.EvalArg(s2, args, i, d2)
+		if result = slip.EvalArg(s2, args, i, d2); slip.IsExit(result) {
+			break
+		}
 	}
 	if place != nil {
 		pos, _ := reader.Seek(0, io.SeekCurrent)
